@@ -151,9 +151,9 @@ where
         if compression_method == CompressionMethod::Bgzf {
             let mut decoder = MultiGzDecoder::new(src);
             let mut buf = [0; BCF_MAGIC_NUMBER.len()];
-            decoder.read_exact(&mut buf)?;
 
-            if buf == BCF_MAGIC_NUMBER {
+            // A stream that inflates to fewer bytes than the magic number is not BCF.
+            if read_magic_number(&mut decoder, &mut buf)? && buf == BCF_MAGIC_NUMBER {
                 return Ok(Format::Bcf);
             }
         }
@@ -164,6 +164,25 @@ where
     }
 
     Ok(Format::Vcf)
+}
+
+// Fills `buf`. Returns `false` if the stream ends before the buffer is filled.
+fn read_magic_number<R>(reader: &mut R, buf: &mut [u8]) -> io::Result<bool>
+where
+    R: Read,
+{
+    let mut len = 0;
+
+    while len < buf.len() {
+        match reader.read(&mut buf[len..]) {
+            Ok(0) => return Ok(false),
+            Ok(n) => len += n,
+            Err(e) if e.kind() == io::ErrorKind::Interrupted => {}
+            Err(e) => return Err(e),
+        }
+    }
+
+    Ok(true)
 }
 
 #[cfg(test)]
